@@ -88,9 +88,19 @@ def derive(seed, *parts) -> int:
     return zlib.crc32(s.encode())
 
 
+def srepr(v, n=60):
+    """repr() that survives integers beyond the str-conversion digit limit."""
+    if isinstance(v, int) and not isinstance(v, bool) and v.bit_length() > 4000:
+        return f"<int of {v.bit_length()} bits, {'negative' if v < 0 else 'positive'}>"
+    try:
+        return repr(v)[:n]
+    except Exception as err:  # noqa
+        return f"<repr raised {type(err).__name__}>"
+
+
 def digest(obj) -> int:
     if not isinstance(obj, (bytes, bytearray)):
-        obj = repr(obj).encode()
+        obj = repr(jenc(obj)).encode()
     return int.from_bytes(hashlib.blake2b(obj, digest_size=8).digest(), "big")
 
 
@@ -98,6 +108,8 @@ def jenc(o):
     """JSON-able encoding that keeps bytes, tuples and non-finite floats."""
     if isinstance(o, (bytes, bytearray)):
         return {"$b": bytes(o).hex()}
+    if isinstance(o, int) and not isinstance(o, bool) and o.bit_length() > 4000:
+        return {"$i": hex(o)}  # beyond the int <-> str digit limit
     if isinstance(o, bool) or o is None or isinstance(o, (int, str)):
         return o
     if isinstance(o, float):
@@ -125,6 +137,8 @@ def jdec(o):
                 return bytes.fromhex(v)
             if k == "$f":
                 return float.fromhex(v)
+            if k == "$i":
+                return int(v, 16)
             if k == "$t":
                 return tuple(jdec(x) for x in v)
             if k == "$d":
